@@ -33,6 +33,24 @@ def Router.hookAt (R : Router) (ps : Str) : Option HookPair := dictGet R.hookIdx
 def SameSurvivors (R F : Router) : Prop :=
   (∀ ps, R.routeAt ps = F.routeAt ps) ∧ (∀ nm, R.nameAt nm = F.nameAt nm) ∧ (∀ ps, R.hookAt ps = F.hookAt ps)
 
+/-- the three finite maps a router stands for -/
+structure Maps where
+  routes : Str → Option RouteView
+  names : Str → Option RouteView
+  hooks : Str → Option HookPair
+
+def Router.maps (R : Router) : Maps := ⟨R.routeAt, R.nameAt, R.hookAt⟩
+
+/-- the routes whose pattern string satisfies `gone` leave the map, and their names with them -/
+def Maps.dropRoutes (M : Maps) (gone : Str → Bool) : Maps :=
+  { routes := fun ps => if gone ps then none else M.routes ps
+    names := fun nm => (M.names nm).bind fun v => if gone (patStr v.syms) then none else some v
+    hooks := M.hooks }
+
+/-- the hook map with the entry at `ps` set / erased -/
+def Maps.setHook (M : Maps) (ps : Str) (o : Option HookPair) : Maps :=
+  { M with hooks := fun x => if x = ps then o else M.hooks x }
+
 /-! ### which hooks a match delivers -/
 
 def emitHook (o : Option HookPair) (pos : Nat) : List (Nat × HookPair) :=
